@@ -61,7 +61,7 @@ def records(spec, contract_name, timeout_s=10.0, prefix=""):
     for name, group in merged.items():
         bad = [o for o in group if o.status == "refuted"]
         unk = [o for o in group if o.status == "unknown"]
-        rec = {"name": f"{prefix}{name}", "function": fq, "backend": group[0].backend or "z3-wp", "strength": "U", "case": "all sizes", "detail": f"{len(group)} path(s); {notes}"}
+        rec = {"name": f"{prefix}{name}", "function": fq, "backend": group[0].backend or "z3-wp", "strength": "U", "case": "all sizes", "detail": f"{len(group)} path(s); {notes}", "time_s": round(sum(o.time_s for o in group), 4)}
         if bad:
             m = bad[0].model
             rec.update(ok=False, detail=f"refuted for all-sizes contract; counter-model (first 12 symbols): " + ", ".join(f"{d.name()}={m[d]}" for d in list(m.decls())[:12]))
